@@ -289,3 +289,59 @@ def no_result_caches(chk: Check, rule: str, modules: Tuple[str, ...] = ("seriali
                        % (mn, d[1], d[0]), 1)
     chk.ob(rule, "no-memoising-wrappers", True, "python/gtirb/serialization.py:1",
            "no lru_cache/cache wrappers on the codec path", 1)
+
+
+def decoded_passthrough(chk: Check, rule: str) -> int:
+    """container codecs put every decoded element into the result as it is: the value that
+    ``_decode_tree`` returns goes straight into an append / add / item assignment / display /
+    constructor — never through a function that could replace it by an *equal* object
+    (0.0 == -0.0, 1 == True == 1.0: interning by equality changes values)"""
+    repo = chk.repo
+    base = repo.cls("Codec")
+    n = 0
+    ok_methods = {"append", "add"}
+
+    def consumer_ok(x: ast.AST, f: FuncInfo, depth: int = 0) -> Optional[str]:
+        par = getattr(x, "_parent", None)
+        if isinstance(par, ast.Call):
+            if x in par.args or any(k.value is x for k in par.keywords):
+                fn = par.func
+                if isinstance(fn, ast.Attribute) and fn.attr in ok_methods:
+                    return None
+                d = dotted(fn)
+                last = d[-1] if d else ""
+                if last in ("tuple", "list", "set", "frozenset", "dict") or last[:1].isupper():
+                    return None         # builtin container or a value class constructor
+                return "it is passed to %s" % unparse(fn)
+            return None
+        if isinstance(par, (ast.Tuple, ast.List, ast.Set, ast.Return, ast.Yield, ast.Expr, ast.Starred,
+                            ast.ListComp, ast.SetComp, ast.GeneratorExp, ast.DictComp, ast.Subscript, ast.keyword)):
+            return None
+        if isinstance(par, ast.Dict):
+            return None
+        if isinstance(par, (ast.Assign, ast.AnnAssign)):
+            tgs = par.targets if isinstance(par, ast.Assign) else [par.target]
+            for t in tgs:
+                if isinstance(t, ast.Name) and depth < 3:
+                    for y in walk_no_nested(f.node):
+                        if isinstance(y, ast.Name) and y.id == t.id and isinstance(y.ctx, ast.Load):
+                            why = consumer_ok(y, f, depth + 1)
+                            if why:
+                                return why
+            return None
+        return None
+    for c in repo.classes.values():
+        if c is base or not c.is_subclass_of(base):
+            continue
+        f = c.methods.get("decode")
+        if f is None:
+            continue
+        for call in walk_no_nested(f.node):
+            if isinstance(call, ast.Call) and isinstance(call.func, ast.Attribute) and call.func.attr == "_decode_tree":
+                n += 1
+                why = consumer_ok(call, f)
+                chk.ob(rule, "%s.decode:element-as-decoded" % c.qualname, why is None, f.loc(call),
+                       "%s.decode does not put the decoded element into its result as it is: %s — a "
+                       "helper that swaps it for an equal object changes values whose equality is "
+                       "coarser than their encoding (signed zeros, 1/True/1.0)" % (c.qualname, why), 2)
+    return n
